@@ -37,6 +37,14 @@ SortedChildren(tree, p) ==
 \* optional node attribute: the directory's permissions do not let find list it
 Unreadable(nd) == "noread" \in DOMAIN nd /\ nd.noread
 
+\* optional node attribute: another file system is mounted on this directory; optional configuration field xdev
+\* (-xdev / -mount): directories on a file system other than the starting point's are reported but not descended
+Mnt(nd) == "mnt" \in DOMAIN nd /\ nd.mnt
+Xdev(cfg) == "xdev" \in DOMAIN cfg /\ cfg.xdev
+RECURSIVE DevOf(_, _)
+DevOf(tree, n) == IF n = 0 THEN 0 ELSE IF Mnt(tree[n]) THEN n ELSE DevOf(tree, tree[n].parent)    \* the file system a node is on
+RootDev(cfg) == IF "rootdev" \in DOMAIN cfg THEN cfg.rootdev ELSE 0
+
 Follows(cfg, depth) == cfg.mode = "L" \/ (cfg.mode = "H" /\ depth = 0)
 
 \* The node whose status record an entry for `node` at `depth` carries.
@@ -50,8 +58,10 @@ Eff(tree, cfg, node, depth) ==
 (* to here - a followed link to one of them closes a cycle.                *)
 (***************************************************************************)
 RECURSIVE Walk(_, _, _, _, _, _)
-Walk(tree, cfg, path, node, depth, anc) ==
-  LET eff == Eff(tree, cfg, node, depth)
+Walk(tree, cfg0, path, node, depth, anc) ==
+  LET eff == Eff(tree, cfg0, node, depth)
+      \* the file system of the starting point is remembered for -xdev
+      cfg == IF depth = 0 /\ Xdev(cfg0) THEN [rootdev |-> DevOf(tree, eff)] @@ cfg0 ELSE cfg0
       isDir == tree[eff].kind = "d"
       viaLink == eff # node
       cyc == viaLink /\ isDir /\ eff \in anc
@@ -61,7 +71,7 @@ Walk(tree, cfg, path, node, depth, anc) ==
     LET inRange == cfg.min <= depth /\ depth <= cfg.max
         self == [path |-> path, depth |-> depth, node |-> node, eff |-> eff, dir |-> isDir]
         prunedHere == inRange /\ isDir /\ ~cfg.depth /\ path \in cfg.prune
-        descend == isDir /\ depth < cfg.max /\ ~prunedHere
+        descend == isDir /\ depth < cfg.max /\ ~prunedHere /\ (Xdev(cfg) => DevOf(tree, eff) = RootDev(cfg))
         \* a directory that cannot be read is itself an entry, but listing it fails: a diagnostic (one error),
         \* nothing beneath it, and the walk goes on with its siblings
         blocked == descend /\ Unreadable(tree[eff])
